@@ -14,7 +14,9 @@ _PROG_CACHE = {}
 
 
 class Ctx:
-    def __init__(self, prop, tier="quick", seed=0):
+    def __init__(self, prop, tier="quick", seed=0, facts_dir=None, scratch=False):
+        self.facts_dir = facts_dir
+        self.scratch = scratch
         self.prop = prop
         self.tier = tier
         self.seed = seed
@@ -41,9 +43,10 @@ class Ctx:
     # ---------------------------------------------------------------- program access
     def prog(self, crates=None):
         key = tuple(sorted(crates or _facts.EXPECTED_CRATES))
-        if key not in _PROG_CACHE:
-            _PROG_CACHE[key] = Program(list(key))
-        p = _PROG_CACHE[key]
+        ckey = (self.facts_dir, key)
+        if ckey not in _PROG_CACHE:
+            _PROG_CACHE[ckey] = Program(list(key), facts_dir=self.facts_dir)
+        p = _PROG_CACHE[ckey]
         self.analysed_crates.update(key)
         self._prog = p
         return p
